@@ -87,6 +87,25 @@ package packfile
 //gvc:  ensures nohdr: err == nil && (n0 == 0 || h1 >= n0) ==> dst.#wlen == old(dst.#wlen)
 //gvc:  ensures consumed: err == nil ==> len(now(delta)) == 0
 //gvc:  ensures srcsize: err == nil && n0 >= 1 ==> spec_leb_value(d0, p0, h1) == len(src)
+//gvc:  grants verdict: (err != nil) == spec_delta_bad(d0, p0, n0, len(src))
+//gvc:end
+
+// PatchDelta (exported wrapper): for deltas of at least git's DELTA_SIZE_MIN
+// (4) bytes its verdict is patchDelta's. Nothing is claimed for 2- and 3-byte
+// deltas ([srclen, 0]: empty target): git refuses them (DELTA_SIZE_MIN) while
+// DiffDelta emits exactly these for an empty target, so the two halves of
+// property C06 disagree there; go-git applies them.
+// Known finding F18: every delta against an empty source is refused, although
+// git's patch_delta applies insert-only deltas to an empty base and DiffDelta
+// itself produces such deltas.
+//gvc:func PatchDelta
+//gvc:  props C06
+//gvc:  theory int
+//gvc:  opt coarse
+//gvc:  opt frame args
+//gvc:  results out err
+//gvc:  ensures asgit: len(delta) >= 4 ==> ((err != nil) == spec_delta_bad(arr(delta), off(delta), len(delta), len(src)))
+//gvc:  kf F18 asgit: len(src) == 0
 //gvc:end
 
 //gvc:func growHint
